@@ -699,6 +699,51 @@ func checkTerminalsByType(r *Run, vm *VisitorModel) {
 			}
 		}
 	}
+	// order: operators of different kinds interleave inside one rule (a - b + c).  Collecting them through the per-type
+	// accessor GetToken(type, i) inside a loop over token types groups them by type and loses their relative order.
+	for _, f := range vm.pkg.Syntax {
+		for _, d := range f.Decls {
+			fd, ok := d.(*ast.FuncDecl)
+			if !ok || fd.Body == nil {
+				continue
+			}
+			ast.Inspect(fd.Body, func(x ast.Node) bool {
+				rs, ok := x.(*ast.RangeStmt)
+				if !ok {
+					return true
+				}
+				var loopVars []types.Object
+				for _, e := range []ast.Expr{rs.Key, rs.Value} {
+					if id, ok := e.(*ast.Ident); ok && id.Name != "_" {
+						loopVars = append(loopVars, info.Defs[id])
+					}
+				}
+				ast.Inspect(rs.Body, func(m ast.Node) bool {
+					call, ok := m.(*ast.CallExpr)
+					if !ok || len(call.Args) != 2 {
+						return true
+					}
+					sel, ok := call.Fun.(*ast.SelectorExpr)
+					if !ok || sel.Sel.Name != "GetToken" {
+						return true
+					}
+					if tv, isConst := info.Types[call.Args[1]]; isConst && tv.Value != nil {
+						return true // GetToken(type, 0): a presence test, no collection
+					}
+					if id, ok := ast.Unparen(call.Args[0]).(*ast.Ident); ok {
+						for _, lv := range loopVars {
+							if lv != nil && info.Uses[id] == lv {
+								n++
+								r.Fail(rule, funcDeclName(fd)+":GetToken-by-type", call.Pos(), "%s collects terminals with GetToken(<type>, i) inside a loop over token types: the tokens come out grouped by type, so `a - b + c` yields the operators [+, -] and is modelled as `a + b - c`", funcDeclName(fd))
+							}
+						}
+					}
+					return true
+				})
+				return true
+			})
+		}
+	}
 	if n == 0 {
 		r.Undecide("C07-R5: no function that reads the text of terminal children found in the parser front end")
 	}
